@@ -50,7 +50,10 @@
         AnyEndTagDecrements      an end tag of ANOTHER name decrements while skipping
         VoidRemovableNeverCloses <embed> (void and in the removal list) opens a skip
         NoClose                  HTMLParser.close() is never called
-      All five on = the code as found at the pinned commit.
+      All five on = the code as found at the pinned commit.  A sixth deviation is not as-built; it
+      names a regression class the bounded universe must contain a witness for:
+        FirstEndTagCloses        the first end tag of the skipped element's name resets the counter
+                                 to 0 (<object><object></object>T</object> leaks T)
 
    THEOREM (TLC, every token string over Alphabet up to MaxLen, both end-of-input modes):
       Deviations = {}  =>  Inv_AlgMeetsVisible
@@ -62,9 +65,9 @@ EXTENDS Naturals, Sequences, FiniteSets
 
 CONSTANTS Deviations, Alphabet, MaxLen
 
-DeviationNames == {"CountVoidStartTag", "AnyStartTagIncrements", "AnyEndTagDecrements",
-                   "VoidRemovableNeverCloses", "NoClose"}
-AsBuilt == DeviationNames
+AsBuilt == {"CountVoidStartTag", "AnyStartTagIncrements", "AnyEndTagDecrements",
+            "VoidRemovableNeverCloses", "NoClose"}
+DeviationNames == AsBuilt \cup {"FirstEndTagCloses"}
 ASSUME Deviations \subseteq DeviationNames
 
 (* ------------------------------------------------------------------ token universe *)
@@ -102,6 +105,7 @@ AlphaQ1 == {Txt, St("noscript"), En("noscript"), St("img"), St("embed"), St("div
 AlphaQ2 == {Txt, Amp, St("object"), En("object"), St("iframe"), En("iframe"), Sc("br"), St("p"),
             En("p"), St("style"), En("style")}
 AlphaQ3 == {Txt, St("noscript"), En("noscript"), St("img"), St("div"), En("div")}     \* deep, few tokens
+AlphaQ4 == {Txt, St("object"), En("object"), St("noscript"), En("noscript"), St("p")}   \* same-name nesting + inner text
 AlphaT  == {Txt, Amp, Com, Cds,
             St("noscript"), En("noscript"), St("object"), En("object"), St("iframe"), En("iframe"),
             St("script"), En("script"), St("div"), En("div"), St("p"), En("p"),
@@ -205,7 +209,7 @@ HStart(hh, n) ==                                       \* handle_starttag
 
 HEnd(hh, n) ==                                         \* handle_endtag
     IF hh.skip > 0 /\ (n = hh.tag \/ Dev("AnyEndTagDecrements"))
-    THEN [hh EXCEPT !.skip = @ - 1] ELSE hh
+    THEN [hh EXCEPT !.skip = IF n = hh.tag /\ Dev("FirstEndTagCloses") THEN 0 ELSE @ - 1] ELSE hh
 
 \* HTMLParser.goahead on one more token (position i): parser state p = [cdata, h, out] -> new state
 AlgStep(p, t, i) ==
